@@ -138,7 +138,7 @@ theorem derived_table_relators_close (maxRows n : Nat) (rels R : List (List Int)
     (frm dst : Nat) (g : Int) (hg : g ∈ t.allGens) (hf : frm < t.len)
     (hd : dst < t.len ∨ (dst = t.len ∧ frm < dst)) (hdm : dst < maxRows)
     (h : derivedTable t R frm dst g = .ok (some t')) : SInv maxRows n rels t' :=
-  derivedTable_sinv hrot hwr hwR s hg hf hd hdm h
+  (derivedTable_sinv hrot hwr hwR s hg hf hd hdm h).1
 
 /-- ○ `rebase_min_invariant`: the Spec's `canonicalForm` (minimum over all base points of
     the BFS-renumbered table) is a complete invariant of a table up to isomorphism
